@@ -60,12 +60,15 @@ LEVEL_NOTE = ('Trusted: openpyxl as the writer of test workbooks; the '
 CONFIGS = {
     'two': ['Sheet1', 'My Sheet'],
     'dollar': ['Sheet1', 'US$'],
+    'apostrophes': ['Sheet1', "Bob's and Al's"],
     'three': ['Sheet1', 'Data_2', "It's"],
     'quotedfirst': ['My Sheet', "It's", 'Sheet1'],
     'four': ['Sheet1', 'My Sheet', 'Data_2', "It's"],
 }
-TIER_CONFIGS = {'quick': ['two', 'three', 'quotedfirst', 'dollar'],
-                'thorough': ['two', 'three', 'quotedfirst', 'four', 'dollar']}
+TIER_CONFIGS = {'quick': ['two', 'three', 'quotedfirst', 'dollar',
+                          'apostrophes'],
+                'thorough': ['two', 'three', 'quotedfirst', 'four', 'dollar',
+                             'apostrophes']}
 PATTERNS = ('dense', 'single', 'empty', 'checker')
 FUNCS = ('SUM', 'COUNTA', 'CONCAT')
 
@@ -525,6 +528,23 @@ def run_whole(kind, ctx):
             ctx.check('C03/whole/%s/%s(%s)' % (kind, func, sp), got,
                       range_expect(vals, func), tags + ['fn:' + func], inputs,
                       True)
+        # a cell of that row / column beyond the area that was in use when
+        # the model was compiled is set: it belongs to the reference, too
+        target = 'Sheet1!J%d' % int(lo) if kind == 'row' \
+            else 'Sheet1!%s9' % lo
+        ev.set_cell_value(target, 100)
+        for a, func in zip(at, ('SUM', 'COUNTA')):
+            try:
+                with lib.time_limit(120):
+                    got = lib.norm(ev.evaluate(a))
+            except lib.CaseTimeout:
+                got = 'timeout'
+            except Exception as exc:  # noqa: BLE001
+                got = lib.exc_obs(exc)
+            ctx.check('C03/whole/%s/%s(%s)/after-set' % (kind, func, sp), got,
+                      range_expect(vals + [100], func),
+                      tags + ['fn:' + func, 'history:set-beyond-used-area'],
+                      inputs, True)
         del model, ev
         lib.clear_caches()
 
@@ -592,6 +612,24 @@ def run_names(ctx):
         got = lib.observe(ev.evaluate, name)
         ctx.check('C03/names/evaluate(%s)' % name, got, lib.norm(want),
                   tags + ['via:evaluate'], {'family': 'names'}, True)
+    # the name means its cell in a model extracted from this one, too: a
+    # value set through the name there is what formulas see there
+    probe = [p for p in book.probes if p[2] == 'C03/names/host=Sheet1/nm+1']
+    host, coord = probe[0][0], probe[0][1]
+    addr = '%s!%s' % (host, coord)
+    try:
+        ext = lib.ModelCompiler.extract(model, focus=[addr])
+        ext.set_cell_value('nm', 500)
+        got = lib.eval_addr(ext, addr)
+        got2 = lib.observe(ext.get_cell_value, 'Sheet1!B2')
+    except Exception as exc:  # noqa: BLE001
+        got = got2 = lib.exc_obs(exc)
+    ctx.check('C03/names/extracted/set(nm)/nm+1', got, lib.norm(501),
+              ['name:cell', 'model:extracted', 'history:set-through-name'],
+              {'family': 'names'}, True)
+    ctx.check('C03/names/extracted/set(nm)/cell', got2, lib.norm(500),
+              ['name:cell', 'model:extracted', 'history:set-through-name'],
+              {'family': 'names'}, True)
 
 
 # ---- (e1) sheets without any content ----------------------------------------------
